@@ -146,10 +146,10 @@ def randomKey : HRes :=
     call (Api.randomKey s now (ch.bind (·.head?))) fun s o =>
       done s [match o with | .str k => (if k.isEmpty then .nullBulk else .bulk k) | _ => .nullBulk]
 
-/-- RENAME replies OK whatever `n.Rename` returned -/
 def rename (args : List Bytes) : HRes :=
   match args with
-  | a :: b :: _ => .exec fun s now _ => call (Api.rename s now a b) fun s _ => done s [ok]
+  | a :: b :: _ => .exec fun s now _ =>
+      call (Api.rename s now a b) fun s o => done s [match o with | .err false => ok | _ => e]
   | _ => errReply
 
 def renameNx (args : List Bytes) : HRes :=
